@@ -236,15 +236,24 @@ def callFn (op : Op) (s : Nat) (ins : List Val) : Ev Val × Nat :=
 SELF" instead of `IndexError` (finding F9). -/
 def f9Fixed : Bool := true
 
-/-- `_normalize_outputs` (tree_fns.py:175–191): the tuple / single value duality, and the
-`SELF` re-wrapping. -/
-def normalizeOutputs (op : Op) (v : Val) : Except ErrKind (List Val) :=
-  let outs := match v with
-    | .tuple xs => xs
-    | x => [x]
+/-- the outputs of a call: a tuple result is several outputs, anything else is one
+(`if not isinstance(outputs, tuple): outputs = (outputs,)`) -/
+def outputsOf (v : Val) : List Val :=
+  match v with
+  | .tuple xs => xs
+  | x => [x]
+
+/-- `_normalize_outputs` (tree_fns.py:175–191) where it does not raise: the tuple / single value
+duality, and the `SELF` re-wrapping (`output_to_self and len(outputs) > 1`). -/
+def normOuts (op : Op) (v : Val) : List Val :=
   match op.outKeys with
-  | [] => if f9Fixed then .ok outs else .error .index       -- `self.output_keys[0]`
-  | k :: _ => if k.isSelf && outs.length > 1 then .ok [.tuple outs] else .ok outs
+  | [] => outputsOf v
+  | k :: _ => if k.isSelf && (outputsOf v).length > 1 then [.tuple (outputsOf v)] else outputsOf v
+
+/-- `_normalize_outputs`: the unrepaired code raised `IndexError` on `self.output_keys[0]` when
+`output_keys` is empty (finding F9) -/
+def normalizeOutputs (op : Op) (v : Val) : Except ErrKind (List Val) :=
+  if op.outKeys.isEmpty && !f9Fixed then .error .index else .ok (normOuts op v)
 
 /-- `TreeMapView(data).copy_and_set(tuple(names), values)` for the names of a dict output key -/
 def setNames (tree : Val) : List String → List Val → Except ErrKind Val
@@ -307,12 +316,6 @@ def routeAll (rec : Val) : List OutKey → List Val → Except ErrKind Val
   | k :: ks, o :: os => do let r ← route rec k o; routeAll r ks os
   | _, _ => .error .value                       -- as many outputs as keys
 
-/-- the outputs of a call: a tuple result is several outputs, anything else is one -/
-def outputsOf (v : Val) : List Val :=
-  match v with
-  | .tuple xs => xs
-  | x => [x]
-
 /-- output routing: as many outputs as keys — or one key for the whole tuple of outputs -/
 def write (op : Op) (base : Val) (v : Val) : Except ErrKind Val :=
   let outs := outputsOf v
@@ -344,6 +347,55 @@ def sem (op : Op) (s : Nat) (r : Val) : Ev Out × Nat :=
       | .sink =>
         (.ok { fwd := some r,
                written := some (if op.argNames.isEmpty then (ins, []) else ([], op.argNames.zip ins)) }, s')
+
+/-- reading the inputs and calling the function: the part of the processing whose skippable
+errors make the runner skip the record when skipping is on -/
+def semCall (op : Op) (s : Nat) (r : Val) : Ev Val × Nat :=
+  match getInputs op r with
+  | .error k => (.error { kind := k }, s)
+  | .ok ins => callFn op s ins
+
+/-- what becomes of record `r` once the function has returned `v` -/
+def semWrite (op : Op) (r : Val) (v : Val) : Ev (Option Val) :=
+  match op.kind with
+  | .select | .apply => (liftErr (write op .null v)).map some
+  | .assign => (liftErr (write op r v)).map some
+  | .filter => .ok (if v.truthy then some r else none)
+  | .sink => .ok (some r)
+
+/-- **`sem` lifted to streams** (the reference for one operator): the records in order, each
+through `semCall` and `semWrite`.  An error of the incoming stream is passed on.  With skipping
+off every error ends the stream; with skipping on a record whose `semCall` raises a skippable
+error is left out — an error of the output routing is never skipped, it is passed on like an
+error of the incoming stream.  Nothing follows a terminal error. -/
+def opEvents (ignore : Bool) (op : Op) : Nat → List (Ev Val) → List (Ev Val)
+  | _, [] => []
+  | s, .error e :: rest =>
+    if terminal ignore e then [.error e] else .error e :: opEvents ignore op s rest
+  | s, .ok r :: rest =>
+    match semCall op s r with
+    | (.error e, s') => if terminal ignore e then [.error e] else opEvents ignore op s' rest
+    | (.ok v, s') =>
+      match semWrite op r v with
+      | .error e => if terminal ignore e then [.error e] else .error e :: opEvents ignore op s' rest
+      | .ok (some x) => .ok x :: opEvents ignore op s' rest
+      | .ok none => opEvents ignore op s' rest
+
+/-- the reference for a chain: operator after operator -/
+def chainEvents (ignore : Bool) : List Op → List (Ev Val) → List (Ev Val)
+  | [], evs => cutTerminal ignore evs
+  | op :: ops, evs => chainEvents ignore ops (opEvents ignore op op.s0 evs)
+
+/-- No skippable error is ever *passed on*: neither the source nor the output routing of an
+operator raises one.  (With skipping off this is vacuous: every error is terminal.)  The real
+runner treats a passed-on skippable error differently depending on the next operator — finding
+F-C12-passed-on — so the refinement theorem assumes there is none. -/
+def Clean (ignore : Bool) (evs : List (Ev Val)) : Prop :=
+  ∀ e, Except.error e ∈ evs → terminal ignore e = true
+
+def CleanRun (ignore : Bool) : List Op → List (Ev Val) → Prop
+  | [], evs => Clean ignore evs
+  | op :: ops, evs => Clean ignore evs ∧ CleanRun ignore ops (opEvents ignore op op.s0 evs)
 
 /-- an operator together with the current state of its function and the log of its successful
 `write` calls (meaningful for sinks) -/
@@ -487,16 +539,16 @@ fn_outputs = map_(self._maybe_call_fn, fn_inputs)
 fn_outputs = map(self._normalize_outputs, fn_outputs)
 if self.batch_size: fn_outputs = rebatched_args(fn_outputs, self.batch_size, num_columns=self._num_outputs)
 ```
-`guard`: the `ignore_error` argument; `ignore`: whether the pipeline runs with skipping on (decides
-which errors are terminal). -/
-def iterate (ignore guard : Bool) (op : Op) (src : AStream Val) : AStream (List Val) :=
-  let l1 := aCut ignore (aMap (fun r => liftErr (getInputs op r)) src.evs)
+`guard`: the `ignore_error` argument.  The layers are causal (an output depends on the inputs before
+it only), so the rule "nothing after a terminal error is ever requested" is applied once, to the
+operator's source and to its output (`opIterate`). -/
+def iterate (guard : Bool) (op : Op) (src : AStream Val) : AStream (List Val) :=
+  let l1 := aMap (fun r => liftErr (getInputs op r)) src.evs
   let l2 := maybeRebatch op.fnBatch op.inKeys.length ⟨l1, src.endUsed⟩
-  let l3 := callLayer op op.s0 (aCut ignore l2.evs)
+  let l3 := callLayer op op.s0 l2.evs
   let l3 := if guard then dropIgnorable l3 else l3
-  let l4 := aCut ignore (aMap (fun v => liftErr (normalizeOutputs op v)) (aCut ignore l3))
-  let l5 := maybeRebatch op.batch op.outKeys.length ⟨l4, l2.endUsed⟩
-  ⟨aCut ignore l5.evs, l5.endUsed⟩
+  let l4 := aMap (fun v => liftErr (normalizeOutputs op v)) l3
+  maybeRebatch op.batch op.outKeys.length ⟨l4, l2.endUsed⟩
 
 def countOk : List (Ev Val) → Nat
   | [] => 0
@@ -558,28 +610,30 @@ def filterGen : List (AEv (List Val × Val)) → List (AEv Val)
 /-- `fn.iterate(input_iterator)` for the four operator classes (tree_fns.py:256–262, 277–305,
 348–357), `ignore_error` already `dataclasses.replace`d into `fn` by the runner. -/
 def opIterate (ignore : Bool) (op : Op) (srcEvs : List (Ev Val)) : AStream Val :=
-  let src : AStream Val := ⟨aCut ignore (annot 0 srcEvs), srcEvs.length + 1⟩
+  -- nothing after a terminal error of the source is ever requested
+  let srcC := cutTerminal ignore srcEvs
+  let src : AStream Val := ⟨annot 0 srcC, srcC.length + 1⟩
   let fin (evs : List (AEv Val)) (endUsed : Nat) : AStream Val :=
     let evs := aCut ignore evs
     ⟨evs, if endsInError evs then lastUsed evs else endUsed⟩
   match op.kind with
   | .select | .apply =>
     -- TreeFn.iterate: map(self._get_outputs, self._iterate(iter(it), ignore_error=self.ignore_error))
-    let inner := iterate ignore ignore op src
+    let inner := iterate ignore op src
     fin (aMap (fun outs => liftErr (getOutputs op .null outs)) inner.evs) inner.endUsed
   | .assign =>
     -- it.starmap(self._get_outputs, processed_with_inputs(self._iterate, iter(it), ignore_error=...))
-    let inner := iterate ignore false op src
-    let paired := pwi ignore srcEvs 0 inner.evs
+    let inner := iterate false op src
+    let paired := pwi ignore srcC 0 inner.evs
     fin (aMap (fun (outs, r) => liftErr (getOutputs op r outs)) paired) inner.endUsed
   | .filter =>
-    let inner := iterate ignore false op src
-    let paired := pwi (ignore && f17Fixed) srcEvs 0 inner.evs
+    let inner := iterate false op src
+    let paired := pwi (ignore && f17Fixed) srcC 0 inner.evs
     fin (filterGen paired) inner.endUsed
   | .sink =>
     -- try: yield from (elem for _, elem in processed_with_inputs(...)) finally: close()
-    let inner := iterate ignore false op src
-    let paired := pwi ignore srcEvs 0 inner.evs
+    let inner := iterate false op src
+    let paired := pwi ignore srcC 0 inner.evs
     fin (aMap (fun (_, r) => .ok r) paired) inner.endUsed
 
 /-- how much of an iterator its consumer took: `n` events, and whether it then also asked once
@@ -631,17 +685,20 @@ def backDemand : List (List (Ev Val) × Op × AStream Val) → Demand → List (
     let used := usedFor s d
     (used, src, op) :: backDemand rest (demandOn src.length used)
 
+/-- the events of the runner's iterator: `_RunnerIterator.iter_fn` folds `fn.iterate` over the
+operators (transform.py:136–144) -/
+def topEvents (ignore : Bool) : List Op → List (Ev Val) → List (Ev Val)
+  | [], src => cutTerminal ignore src
+  | op :: ops, src => topEvents ignore ops ((opIterate ignore op src).evs.map (·.ev))
+
 /-- `list(pipeline.make().iterate(data, ignore_error=ignore))`, then dropping the iterator -/
 def run (ignore : Bool) (ops : List Op) (src : List (Ev Val)) : Run :=
-  let ss := streams ignore ops src
-  let top : List (Ev Val) := match ss.getLast? with
-    | some (_, _, s) => s.evs.map (·.ev)
-    | none => cutTerminal ignore src
+  let top := topEvents ignore ops src
   let (out, err) := observe top
   let d : Demand := match err with
     | some _ => ⟨out.length + 1, false⟩
     | none => ⟨top.length, true⟩
-  let back := (backDemand ss.reverse d).reverse
+  let back := (backDemand (streams ignore ops src).reverse d).reverse
   { out := out, err := err,
     logs := back.map fun (used, src, op) =>
       if op.kind = .sink then sinkLog op op.s0 (src.take used) else [],
@@ -752,6 +809,9 @@ def mkTreeFn (kind : OpKind) (fn : Option UFn) (s0 : Nat) (input : InSpec) (outp
   if fnBatch != 0 && batch == 0 then throw .value                     -- 'fn_batch_size should be used with batch_size'
   let (argNames, inKeys) := input.normalize
   if fn.isNone && !argNames.isEmpty then throw .value                 -- 'Select Op cannot have kwargs'
+  -- (repaired) 'SKIP cannot be used as an input key', 'Literal cannot be used as an output key'
+  if inKeys.any (fun k => match k with | .skip => true | _ => false) then throw .value
+  if output.any (fun k => match k with | .key (.lit _) => true | _ => false) then throw .value
   return { kind := kind, inKeys := inKeys, argNames := argNames, outKeys := output,
            fn := fn.getD identityFn, s0 := s0, fnBatch := fnBatch, batch := batch }
 
